@@ -293,6 +293,11 @@ func (t *loopTr) big2PkgConst(at ast.Node, v *types.Var) string {
 		return s
 	}
 	const shape = "a package-level *big.Int variable is only supported as a constant: `var c = big.NewInt(k)` with a constant k, and every use of c in the package an operand (not the receiver) of a math/big method or the receiver of Sign, Cmp, Int64 or Bytes"
+	if v.Exported() {
+		// an exported variable can be modified by any importing package: the whole-package read-only check proves nothing
+		// (fourth audit, finding 2)
+		t.fail(at, "%s (%s is exported: other packages can modify it)", shape, v.Name())
+	}
 	init, _, has := t.set.p.valueSpec(v.Name())
 	if !has || init == nil || !t.isBigNewInt(init) {
 		t.fail(at, "%s (%s is not initialised that way)", shape, v.Name())
@@ -451,6 +456,9 @@ func (t *loopTr) big2AssignStrings(s *ast.AssignStmt, l *ast.IndexExpr) ([]bindi
 // big2RetStrings: in a return statement, the operand r of a result of kind kStrings: nil ↦ []; a local made by make is
 // translated as usual (ok = false); anything else is rejected.
 func (t *loopTr) big2RetStrings(r ast.Expr, k lkind) (string, bool) {
+	if v, ok := t.keyRetValue(r, k); ok {
+		return v, true // stage 13 (loops_key.go)
+	}
 	if k != kStrings {
 		return "", false
 	}
